@@ -6,7 +6,8 @@
 (* the stack of blocks that enclose it (innermost last), and - when the    *)
 (* innermost block is an IF block - whether an ELSE (ce) or an ELSEIF (ci) *)
 (* may still be written there: no ELSE arm yet and, for ELSE, no ELSEIF    *)
-(* further down.  A FAULT is a *)
+(* further down; when it is a SELECT block, whether a numeric CASE clause  *)
+(* may be added there (cs: numeric selector, not behind CASE ELSE).  A FAULT is a *)
 (* construct from the catalogue; injected at a site it either violates a   *)
 (* static rule there - then the program must be rejected with one of the   *)
 (* categories of that rule, at a position inside the allowed line span -   *)
@@ -25,16 +26,16 @@
 EXTENDS Integers, Sequences, FiniteSets
 
 Sites == {
-    [name |-> "main_top",    routine |-> "main",     blocks |-> <<>>, ce |-> FALSE, ci |-> FALSE],
-    [name |-> "main_if",     routine |-> "main",     blocks |-> <<"if">>, ce |-> TRUE, ci |-> TRUE],
-    [name |-> "main_for",    routine |-> "main",     blocks |-> <<"for">>, ce |-> FALSE, ci |-> FALSE],
-    [name |-> "main_do",     routine |-> "main",     blocks |-> <<"do">>, ce |-> FALSE, ci |-> FALSE],
-    [name |-> "main_select", routine |-> "main",     blocks |-> <<"select">>, ce |-> FALSE, ci |-> FALSE],
-    [name |-> "main_nest",   routine |-> "main",     blocks |-> <<"for", "if", "do">>, ce |-> FALSE, ci |-> FALSE],
-    [name |-> "sub_top",     routine |-> "sub",      blocks |-> <<>>, ce |-> FALSE, ci |-> FALSE],
-    [name |-> "sub_while",   routine |-> "sub",      blocks |-> <<"while">>, ce |-> FALSE, ci |-> FALSE],
-    [name |-> "fn_top",      routine |-> "function", blocks |-> <<>>, ce |-> FALSE, ci |-> FALSE],
-    [name |-> "fn_for",      routine |-> "function", blocks |-> <<"for">>, ce |-> FALSE, ci |-> FALSE] }
+    [name |-> "main_top",    routine |-> "main",     blocks |-> <<>>, ce |-> FALSE, ci |-> FALSE, cs |-> FALSE],
+    [name |-> "main_if",     routine |-> "main",     blocks |-> <<"if">>, ce |-> TRUE, ci |-> TRUE, cs |-> FALSE],
+    [name |-> "main_for",    routine |-> "main",     blocks |-> <<"for">>, ce |-> FALSE, ci |-> FALSE, cs |-> FALSE],
+    [name |-> "main_do",     routine |-> "main",     blocks |-> <<"do">>, ce |-> FALSE, ci |-> FALSE, cs |-> FALSE],
+    [name |-> "main_select", routine |-> "main",     blocks |-> <<"select">>, ce |-> FALSE, ci |-> FALSE, cs |-> TRUE],
+    [name |-> "main_nest",   routine |-> "main",     blocks |-> <<"for", "if", "do">>, ce |-> FALSE, ci |-> FALSE, cs |-> FALSE],
+    [name |-> "sub_top",     routine |-> "sub",      blocks |-> <<>>, ce |-> FALSE, ci |-> FALSE, cs |-> FALSE],
+    [name |-> "sub_while",   routine |-> "sub",      blocks |-> <<"while">>, ce |-> FALSE, ci |-> FALSE, cs |-> FALSE],
+    [name |-> "fn_top",      routine |-> "function", blocks |-> <<>>, ce |-> FALSE, ci |-> FALSE, cs |-> FALSE],
+    [name |-> "fn_for",      routine |-> "function", blocks |-> <<"for">>, ce |-> FALSE, ci |-> FALSE, cs |-> FALSE] }
 
 Innermost(s) == IF s.blocks = <<>> THEN "none" ELSE s.blocks[Len(s.blocks)]
 Encloses(s, b) == \E i \in 1..Len(s.blocks) : s.blocks[i] = b
@@ -104,7 +105,7 @@ LegalAt(f, s) ==
       [] f = "exit-function" -> s.routine = "function"
       [] f = "stray-else" -> Innermost(s) = "if" /\ s.ce
       [] f = "stray-elseif" -> Innermost(s) = "if" /\ s.ci
-      [] f = "stray-case" -> Innermost(s) = "select"
+      [] f = "stray-case" -> Innermost(s) = "select" /\ s.cs
       [] OTHER -> FALSE
 
 \* an early terminator of the innermost block leaves the host's own terminator without a partner:
@@ -112,7 +113,10 @@ LegalAt(f, s) ==
 Expect(f, s) ==
     LET e == CHOOSE c \in Catalogue : c.name = f IN
     IF LegalAt(f, s) THEN [accept |-> TRUE, cats |-> {}, rule |-> "line"]
-    ELSE [accept |-> FALSE, cats |-> e.cats, rule |-> e.rule]
+    \* an ELSE / ELSEIF written into an IF block that cannot take it clashes with an arm of that block:
+    \* which of the two the diagnostic names is not defined
+    ELSE [accept |-> FALSE, cats |-> e.cats,
+          rule |-> IF f \in {"stray-else", "stray-elseif"} /\ Innermost(s) = "if" THEN "span" ELSE e.rule]
 
 Noises == {"none", "blank-lines", "comments", "declarations"}
 =============================================================================
